@@ -233,7 +233,7 @@ Definition run_query (rg : ring) (ev : env) (q : query) : result (list Z) :=
 Definition updating (op : pop) : bool :=
   match op with
   | Add _ _ _ _ _ | Remove _ _ _ _ | SwapIn _ _ _ _ _ | SwapOut _ _ _ _ _
-  | RemoveBuyBack _ _ _ => true
+  | SwapNoFee _ _ _ _ | RemoveBuyBack _ _ _ => true
   | _ => false
   end.
 
